@@ -56,12 +56,14 @@ def device(ranges):
         "layout": layout,
         "modes": {"concurrent": 2, "spatial": 1, "temporal_max": DEV_TM},
         "compiler": ["TDM"],
-        "gate_parameters": {"bs": [0, [0, 2 * PI]], "r": [0, [0, PI], PI], "m": [0, [0, 2 * PI]]} if ranges else None,
+        # the measurement angle has a DISCRETE set of settings: a value between two allowed ones is out of range
+        "gate_parameters": {"bs": [0, [0, 2 * PI]], "r": [0, [0, PI], PI], "m": [0, PI / 2, 6.5 if False else 2 * PI]} if ranges else None,
     }
     return Device(spec)
 
 
-DEVIATIONS = ["sq_amp", "sq_phase", "bs_phase", "order", "bs_range", "r_range", "m_range", "timebins", "concurrent"]
+DEVIATIONS = ["sq_amp", "sq_phase", "bs_phase", "order", "bs_range", "r_range", "m_range", "m_gap", "timebins", "concurrent"]
+RANGE_DEVS = {"bs_range", "r_range", "m_range", "m_gap"}
 
 
 def build(dev):
@@ -76,6 +78,8 @@ def build(dev):
         r[2] = -0.5
     if "m_range" in dev:
         m[0] = 6.5
+    if "m_gap" in dev:
+        m[1] = 1.0  # strictly between the smallest and the largest entry, which are both allowed settings
     N = 3 if "concurrent" in dev else 2
     prog = TDMProgram(N=N)
     with warnings.catch_warnings():
@@ -99,7 +103,7 @@ def check(dev_names, ranges, explicit, res):
     prog, arrays = build(dev)
     d = device(ranges)
     compiler_db["TDM"].reset_circuit()
-    must_refuse = dev - ({"bs_range", "r_range", "m_range"} if not ranges else set())
+    must_refuse = dev - (RANGE_DEVS if not ranges else set())
     try:
         with warnings.catch_warnings():
             warnings.simplefilter("ignore")
@@ -112,7 +116,7 @@ def check(dev_names, ranges, explicit, res):
         res.violation(f"C12|TDM|crash|{type(e).__name__}", f"single-loop program with deviations {sorted(dev)}: compile raised {type(e).__name__}: {str(e)[:140]}", case)
         return False
     if must_refuse:
-        kind = "range" if must_refuse <= {"bs_range", "r_range", "m_range"} else ("modes" if must_refuse <= {"timebins", "concurrent"} else ("topology" if "order" in must_refuse else "fixed-parameter"))
+        kind = ("range-gap" if must_refuse == {"m_gap"} else "range") if must_refuse <= RANGE_DEVS else ("modes" if must_refuse <= {"timebins", "concurrent"} else ("topology" if "order" in must_refuse else "fixed-parameter"))
         res.violation(f"C12|TDM|accepts-nonconforming|{kind}", f"single-loop program deviating from the device in {sorted(must_refuse)} (device {'with' if ranges else 'without'} published ranges, compiler {'named' if explicit else 'from device'}) was accepted", case)
         return True
     got = [(c.op.__class__.__name__, tuple(r.ind for r in c.reg)) for c in out.circuit]
